@@ -322,6 +322,13 @@ pub fn pipeline(src: &str, class: &str, l: &mut Local) {
             }
         }
     }
+    // every other built-in solver entry point (each rejects the domains it does not support with an error)
+    guarded!("solve-milp", rooc::solve_milp_lp_problem(&lm).map(|s| s.to_string().len()).map_err(|e| e.to_string().len()));
+    guarded!("solve-microlp-real", rooc::solve_real_lp_problem_micro_lp(&lm).map(|s| s.to_string().len()).map_err(|e| e.to_string().len()));
+    guarded!("solve-clarabel", rooc::solve_real_lp_problem_clarabel(&lm).map(|s| s.to_string().len()).map_err(|e| e.to_string().len()));
+    if lm.variables().len() <= 12 {
+        guarded!("solve-slow-simplex", rooc::solve_real_lp_problem_slow_simplex(&lm, 1000).map(|s| s.to_string().len()).map_err(|e| e.to_string().len()));
+    }
     guarded!("one-shot", rooc::RoocSolver::try_new(src.to_string()).map(|s| s.solve_using(rooc::auto_solver).is_ok()).is_ok());
 }
 
@@ -412,7 +419,7 @@ pub fn run(mut run: Run) -> ! {
     run.worker_stack_mb = 8;
     run.worker_mem_limit_kb = Some(3 * 1024 * 1024);
     let quick = run.quick();
-    run.rule = "deviation-bounded exhaustive exploration of the public pipeline (parse, format, latex, type check, token map, transform, linearize, renderings, standardise, tableau simplex, auto solver, one-shot solver, every error renderer): level 0 = corpus of valid programs; level 1 = EVERY single token-level mutation of every corpus program (delete / duplicate / swap each token, 15 numeric extremes (incl. small just-out-of-range values) in every numeric slot, keyword/identifier substitutions, 18 insertions before every token, truncation at every character); level 2 = all pairs of level-1 delete/duplicate/numeric-extreme mutations within one line; nesting = 17 nesting constructs at every depth 1..64; small scope = all strings of length <= 4 (thorough: 5) over a 24-symbol alphabet in 5 syntactic slots; unicode = 7 multi-byte strings before every token of 3 programs; distinct = program texts; non-trivial = every text (each is a distinct input to the compiler)".into();
+    run.rule = "deviation-bounded exhaustive exploration of the public pipeline (parse, format, latex, type check, token map, transform, linearize, renderings, standardise, tableau simplex, auto solver and the four other solver entry points, one-shot solver, every error renderer): level 0 = corpus of valid programs; level 1 = EVERY single token-level mutation of every corpus program (delete / duplicate / swap each token, 15 numeric extremes (incl. small just-out-of-range values) in every numeric slot, keyword/identifier substitutions, 18 insertions before every token, truncation at every character); level 2 = all pairs of level-1 delete/duplicate/numeric-extreme mutations within one line; nesting = 17 nesting constructs at every depth 1..64; small scope = all strings of length <= 4 (thorough: 5) over a 24-symbol alphabet in 5 syntactic slots; unicode = 7 multi-byte strings before every token of 3 programs; distinct = program texts; non-trivial = every text (each is a distinct input to the compiler)".into();
     run.assume("worker subprocesses with an 8 MiB stack (the default main-thread stack), a 3 GiB address-space limit and an 8 s per-case watchdog: stack overflow, allocation failure and non-termination are observed as abort/hang violations");
     run.assume("arbitrary byte noise beyond length 4 (thorough: 5) over the 24-symbol alphabet is not covered (only reachable by sampling, which is outside this technique)");
     // ----- level 0 / 1 / 2
